@@ -110,7 +110,7 @@ def _build(prog, d, elm, placed):
             elif s['sym'] in ('LabelNode',):
                 e = cls(name=s['name'], id_loc=s.get('loc', 'N'))
             elif s['sym'] == 'Node':
-                e = cls(name=s['name'])                 # a named node without a visible label
+                e = cls(name=s['name']) if s.get('name') else cls()       # a named node without a visible label / an unnamed junction dot
             elif s['sym'] == 'Ground':
                 e = cls(name=s['name']) if 'name' in s else cls()
             elif s['sym'] == 'LabeledLine':
@@ -190,7 +190,10 @@ def intended_netlist(prog):
         if s['sym'] == 'Line':
             continue
         if s['sym'] in ('LabelNode', 'Node'):
-            names[cls_of(s['at'])] = s['name']
+            if s.get('name'):
+                names[cls_of(s['at'])] = s['name']
+            else:
+                cls_of(s['at'])                              # an unnamed junction dot names nothing
             continue
         if s['sym'] == 'Ground':
             ground = cls_of(s['at'])
@@ -285,6 +288,11 @@ def embed(rng, cdesc, grid=6, labels=None, ground=True, sym_of=None):
         if n in own and not (g and ground and g[0]['nodes'][0] == n):
             # the node's name is given by a labelled dot or (one in three) by the plain Node symbol that has no visible label
             symbols.append({'sym': 'Node' if (len(name) + len(symbols)) % 3 == 0 else 'LabelNode', 'name': name, 'at': list(rng.choice(own[n]))})
+    if len(symbols) % 3 == 0:
+        # junction dots without a name on up to two different nodes: they name nothing (and must not be read as one node)
+        dots = [n for n in own if not (g and ground and g[0]['nodes'][0] == n) and n not in (labels or {})][:2]
+        for n in dots:
+            symbols.append({'sym': 'Node', 'name': '', 'at': list(rng.choice(own[n]))})
     rng.shuffle(symbols)
     return {'unit': rng.choice([3, 7, 2.5]), 'step': rng.choice([1.5, 3.0, 2.0]), 'offset': [0.0, 0.0], 'rot': 0, 'symbols': symbols}
 
